@@ -14,35 +14,43 @@ Fields == {"be", "ta"}
 
 \* what thread u reports in state s: get_backend(), current_backend().backend_name, the tag of a
 \* dynamically dispatched function and of a dispatched attribute -- all must be Get(s, u, m)
-ObsMatch(e, s) ==
+ObsMatch(e, s, d) ==
     \A u \in DOMAIN e.obs :
         /\ u \in Threads
         /\ \A m \in Mgrs :
-             \A f \in DOMAIN e.obs[u][m] : e.obs[u][m][f] = Get(s, u, m)
+             /\ \A f \in DOMAIN e.obs[u][m].state : e.obs[u][m].state[f] = Get(s, u, m)
+             /\ \A f \in DOMAIN e.obs[u][m].top : e.obs[u][m].top[f] = TopDisp(s, u, m)
+             /\ \A f \in DOMAIN e.obs[u][m].attr : e.obs[u][m].attr[f] = AttrDisp(s, d, u, m)
 
 Known(e) == e.name \in Names[e.m]
 
 Verdict(e) ==
     IF ~(e.t \in Threads /\ e.m \in Mgrs) THEN "Malformed"
-    ELSE IF e.ev = "Query" THEN (IF ObsMatch(e, S) THEN "ok" ELSE "ObsMismatch")
+    ELSE IF e.ev = "Query" THEN (IF ObsMatch(e, S, disp) THEN "ok" ELSE "ObsMismatch")
+    ELSE IF e.ev = "Static" THEN
+        (IF ObsMatch(e, S, [disp EXCEPT ![e.m] = Get(S, e.t, e.m)]) THEN "ok" ELSE "StaticDispatchMismatch")
+    ELSE IF e.ev = "Dynamic" THEN
+        (IF ObsMatch(e, S, [disp EXCEPT ![e.m] = "dyn"]) THEN "ok" ELSE "DynamicDispatchMismatch")
     ELSE IF e.ev \in {"Set", "Enter"} THEN
         IF e.out = "ok" THEN
             IF ~Known(e) THEN "AcceptedUnselectableName"
             ELSE IF e.ev = "Set"
-                   THEN (IF ObsMatch(e, DoSet(S, e.t, e.m, e.name, e.loc)) THEN "ok" ELSE "ObsMismatch")
-                   ELSE (IF ObsMatch(e, DoEnter(S, e.t, e.m, e.name, e.loc)) THEN "ok" ELSE "ObsMismatch")
+                   THEN (IF ObsMatch(e, DoSet(S, e.t, e.m, e.name, e.loc), disp) THEN "ok" ELSE "ObsMismatch")
+                   ELSE (IF ObsMatch(e, DoEnter(S, e.t, e.m, e.name, e.loc), disp) THEN "ok" ELSE "ObsMismatch")
         ELSE
             IF Known(e) THEN "RejectedSelectableName"
             ELSE IF ~(e.name \in BadNames[e.m]) THEN "Malformed"
-            ELSE IF ObsMatch(e, S) THEN "ok" ELSE "RejectedSelectionChangedState"
+            ELSE IF ObsMatch(e, S, disp) THEN "ok" ELSE "RejectedSelectionChangedState"
     ELSE IF e.ev = "Exit" THEN
         IF Len(S.stack[e.t]) = 0 \/ Top(S, e.t).m # e.m THEN "Malformed"
         ELSE IF e.out # "ok" THEN "ExitRaised"
-        ELSE IF ObsMatch(e, DoExit(S, e.t)) THEN "ok" ELSE "ExitObsMismatch"
+        ELSE IF ObsMatch(e, DoExit(S, e.t), disp) THEN "ok" ELSE "ExitObsMismatch"
     ELSE "Malformed"
 
 DesignStep(e) ==
     CASE e.ev = "Query" -> UNCHANGED vars
+      [] e.ev = "Static" -> UseStatic(e.t, e.m)
+      [] e.ev = "Dynamic" -> UseDynamic(e.t, e.m)
       [] e.ev = "Set" /\ e.out = "ok"      -> Set1(e.t, e.m, e.name, e.loc)
       [] e.ev = "Set" /\ e.out # "ok"      -> SetBad(e.t, e.m, e.name, e.loc)
       [] e.ev = "Enter" /\ e.out = "ok"    -> Enter(e.t, e.m, e.name, e.loc)
@@ -60,6 +68,7 @@ TraceNext ==
              /\ sel' = [m \in Mgrs |-> [t \in Threads |-> IF t = Main THEN Default[m] ELSE None]]
              /\ nops' = 0 /\ actor' = None /\ actorLocal' = FALSE /\ rejected' = FALSE
              /\ opLocal' = [t \in Threads |-> FALSE]
+             /\ disp' = [m \in Mgrs |-> "dyn"]
              /\ failed' = FALSE
          ELSE IF failed THEN UNCHANGED <<vars, failed>>
          ELSE LET v == Verdict(e) IN
